@@ -118,7 +118,7 @@ Proof.
     + intros st H. rewrite A1 in H. rewrite Hec', <- Hec. apply F1, H.
     + intros st H. exfalso. apply H. exact Hec'.
     + intros H. exfalso. apply H. exact Hec'.
-    + rewrite Hdi. intro H. rewrite (tbl_static hstate c c' _ St). apply F4, H.
+    + rewrite Hdi. intro H. rewrite (tbl_static hstate c c' _ St). destruct St as (_ & _ & _ & _ & A5 & _). rewrite A5. apply F4, H.
   - reflexivity.
   - reflexivity.
   - unfold R_block. rewrite Hec'. exact B.
@@ -146,6 +146,9 @@ Lemma fkind_eqb_eq a b : fkind_eqb a b = true <-> a = b.
 Proof. destruct a, b; cbn; split; intro H; try reflexivity; try discriminate. Qed.
 Lemma fkind_eqb_neq a b : fkind_eqb a b = false <-> a <> b.
 Proof. destruct a, b; cbn; split; intro H; try reflexivity; try discriminate; try congruence. Qed.
+
+Lemma land1_even n : (N.land n 1 =? 0) = N.even n.
+Proof. destruct n as [|[p|p|]]; reflexivity. Qed.
 
 Lemma rl_frame c s ph fr : Sim c s ph -> sc_sl_done c = false ->
   G c s ph (RFrame fr) (feed c (IIn (RFrame fr))) \/ forwarded c fr (feed c (IIn (RFrame fr))).
@@ -223,27 +226,22 @@ Proof.
         destruct (flag_has (sf_flags fr) FL_ES) eqn:ACK; cbn [negb] in E.
         * left. rewrite C1c in E.
           assert (F : feed c (IIn (RFrame fr)) = c) by (unfold feed; rewrite step_EvRL, Hrl, E; apply sl_after_stay; assumption).
-          apply (G_rl_static c s ph fr c []); auto using static_refl.
-          -- rewrite F. reflexivity.
-          -- rewrite F. reflexivity.
-          -- rewrite F. reflexivity.
-          -- rewrite F. reflexivity.
-          -- rewrite F. apply static_refl.
-          -- rewrite F. reflexivity.
-          -- rewrite KK. auto.
+          apply (G_rl_static c s ph fr c []); rewrite ?F; auto using static_refl; try reflexivity;
+            try (rewrite KK; auto); try (intros sid rq []).
         * right. exists ec'. split; [exact SQ|]. split; [apply FW, E|]. right. split; [exact Z|]. left. split; [exact KK | exact ACK].
       + (* PING *)
         left. rewrite C1c in E.
         destruct (flag_has (sf_flags fr) FL_ES) eqn:ACK; cbn [negb] in E.
         * assert (F : feed c (IIn (RFrame fr)) = c) by (unfold feed; rewrite step_EvRL, Hrl, E; apply sl_after_stay; assumption).
-          apply (G_rl_static c s ph fr c []); auto using static_refl; rewrite ?KK; auto.
+          apply (G_rl_static c s ph fr c []); rewrite ?F; auto using static_refl; try reflexivity;
+            try (rewrite KK; auto); try (intros sid rq []).
         * assert (F : feed c (IIn (RFrame fr)) = emit c (OPingAck (sf_payload fr))).
           { unfold feed. rewrite step_EvRL, Hrl, E. apply sl_after_stay; sc_rw; assumption. }
-          apply (G_rl_static c s ph fr (emit c (OPingAck (sf_payload fr))) [OPingAck (sf_payload fr)]); auto; sc_rw; auto.
+          apply (G_rl_static c s ph fr (emit c (OPingAck (sf_payload fr))) [OPingAck (sf_payload fr)]); rewrite ?F; sc_rw; auto;
+            try reflexivity; try (rewrite KK; auto).
           -- repeat split; sc_rw; reflexivity.
           -- rewrite sc_out_emit, Hwl, Hsl. reflexivity.
           -- intros sid rq [H|[]]; discriminate.
-          -- rewrite KK. auto.
       + (* GOAWAY from the peer: the read loop ends *)
         left. rewrite C1c in E.
         assert (F : feed c (IIn (RFrame fr)) = note (upd_done (rl_exit c (if sf_code fr =? c_NoError then 0 else 4)) true true) (OExit 1 1)).
@@ -260,23 +258,18 @@ Proof.
       unfold check_frame_with_stream in E.
       destruct (N.land (sf_sid fr) 1 =? 0) eqn:EV.
       + (* even id *)
-        assert (Ev : N.even (sf_sid fr) = true).
-        { rewrite <- N.negb_odd. rewrite <- N.bit0_odd. rewrite N.land_ones with (n := 1) in EV by lia || idtac.
-          clear -EV. apply N.eqb_eq in EV. rewrite N.bit0_mod. cbn in EV. rewrite EV. reflexivity. }
+        assert (Ev : N.even (sf_sid fr) = true) by (rewrite <- land1_even; exact EV).
         left. apply (EXIT c1); try assumption; try reflexivity; try exact E.
         destruct BK as [[K BN]|[K [BS O]]]; [|rewrite <- N.negb_odd, O in Ev; discriminate].
         destruct (sf_kind fr) eqn:KK; try congruence;
           try (left; apply allowed_table; cbn [abs_input]; rewrite verdicts_stream_bad by (try assumption; rewrite KK; exact I); reflexivity);
           try (left; apply allowed_table; cbn [abs_input]; rewrite verdicts_stream by (try assumption; rewrite KK; exact I);
-               unfold RS.on_stream, RS.by_state; rewrite (st_of_even s _ Ev); unfold abs_frame; cbn [RS.f_kind RS.f_sid]; rewrite KK, ?Ev; reflexivity).
+               unfold RS.on_stream, RS.by_state, abs_frame; cbn [RS.f_kind RS.f_sid]; rewrite (st_of_even s _ Ev), KK, ?Ev; reflexivity).
         right. unfold known_deviation. rewrite KK, Ev. replace (sf_sid fr =? 0) with false by lia. reflexivity.
-      + assert (Od : N.odd (sf_sid fr) = true).
-        { rewrite <- N.bit0_odd. rewrite N.bit0_mod. apply N.eqb_neq in EV. rewrite N.land_ones with (n := 1) in EV by lia || idtac.
-          cbn in EV. pose proof (N.mod_upper_bound (sf_sid fr) 2 ltac:(lia)).
-          destruct (sf_sid fr mod 2) as [|[| |]] eqn:M; try reflexivity; try lia. congruence. }
+      + assert (Od : N.odd (sf_sid fr) = true) by (rewrite <- N.negb_even, <- land1_even, EV; reflexivity).
         destruct BK as [[K BN]|[K [BS O]]].
-        * destruct (sf_kind fr) eqn:KK; try congruence;
-            try (right; exists ec'; split; [exact SQ|]; split; [apply FW, E|]; left; split; [exact Od | exact I]);
+        * revert E. destruct (sf_kind fr) eqn:KK; intro E; try congruence;
+            try (right; exists ec'; split; [exact SQ|]; split; [apply FW, E|]; left; split; [exact Od | rewrite KK; exact I]);
             (left; apply (EXIT c1); try assumption; try reflexivity; try exact E;
              left; apply allowed_table; cbn [abs_input]; rewrite verdicts_stream_bad by (try assumption; rewrite KK; exact I); reflexivity).
         * rewrite K in E. right. exists ec'. split; [exact SQ|]. split; [apply FW, E|]. left. split; [exact Od|]. rewrite K. exact I. }
@@ -284,13 +277,13 @@ Proof.
   - apply N.eqb_eq in E0. destruct (fkind_eqb (sf_kind fr) KCont) eqn:KC.
     + left. apply (EXIT c); try assumption; try reflexivity.
       * unfold rl_step. rewrite E0. cbn [N.eqb negb]. rewrite KC. reflexivity.
-      * left. apply allowed_table. cbn [abs_input]. rewrite verdicts_cont_noblock; [reflexivity | rewrite B, E0; reflexivity | apply fkind_eqb_eq, KC].
+      * left. apply allowed_table. cbn [abs_input]. rewrite verdicts_cont_noblock; [reflexivity | rewrite B, ?E0; reflexivity | apply fkind_eqb_eq, KC].
     + eapply REST. left. split; [exact E0|]. split; [apply fkind_eqb_neq, KC | reflexivity].
   - apply N.eqb_neq in E0. destruct (negb (fkind_eqb (sf_kind fr) KCont) || negb (sf_sid fr =? sc_expectCont c))%bool eqn:X.
     + left. apply (EXIT c); try assumption; try reflexivity.
       * unfold rl_step. replace (sc_expectCont c =? 0) with false by lia. cbn [negb]. rewrite X. reflexivity.
       * left. apply allowed_table. cbn [abs_input]. rewrite (verdicts_block_other s fr (sc_expectCont c)); [reflexivity | |].
-        -- rewrite B. replace (sc_expectCont c =? 0) with false by lia. reflexivity.
+        -- rewrite B. try replace (sc_expectCont c =? 0) with false by lia. reflexivity.
         -- apply orb_true_iff in X. destruct X as [X|X]; [left | right].
            ++ apply fkind_eqb_neq. destruct (fkind_eqb _ _); [discriminate | reflexivity].
            ++ destruct (sf_sid fr =? sc_expectCont c) eqn:Y; [discriminate | lia].
